@@ -167,6 +167,8 @@ def run(tier):
     M.TS96_SECONDS_FIRST = False
     ck.cov['outcomes'] = stats
     ck.cov['source_kinds'] = [json.dumps(s) for s in SRCS]
+    from checks import c03
+    c03.int_key_cases(ck, rng, 4000 if tier == 'quick' else 300000)
     return ck.finish(min_nontrivial=1000)
 
 
